@@ -162,4 +162,9 @@ type ModeTable struct {
 	Contract []bool            `json:"contract"`
 	Equals   [][]bool          `json:"equals"`
 	Spell    map[string]string `json:"spell"` // spelling -> String() of StringToMode
+	// SpellAll: every distinct answer StringToMode gave for a spelling over the shuffled rounds
+	SpellAll map[string][]string `json:"spell_all,omitempty"`
+	Rounds   int                 `json:"rounds,omitempty"`
+	// TablesStable: the relation tables were the same in every round
+	TablesStable bool `json:"tables_stable"`
 }
